@@ -13,6 +13,9 @@ import PcbV.Lemmas.PyIntLemmas
   `Bounded s` = `len(_buffer) ≤ _start + 15`, `NoInject op` = op is not a limit-ignoring injection,
   `FifoOp op` = op is not a raw POKE (the clearing idiom is its own op).
 
+  DBCS: `getFullchar`/`readAll` model Keyboard.get_fullchar / read_byte; `fullchar_preserves_bytes`,
+  `reads_preserve_bytes`, `dbcs_fifo`: no reading path loses, repeats or reorders a byte, whatever the pairing.
+
   Main theorems: `fifo_refinement`, `waiting_le_15`, `ring_mirror`, `pointer_poke_keeps_slots`,
   `clear_poke_empties`, `clear_poke_pointers`; `old_*_counterexample` are about the code before the repair.
 -/
@@ -272,6 +275,90 @@ example : (specRun [] ((List.replicate 16 (.press [120] 45)) ++ List.replicate 1
     = List.replicate 15 [120] ++ [[], []] := by decide
 example : reads (run init ((List.replicate 16 (.press [120] 45)) ++ List.replicate 17 .read)).1
     = List.replicate 15 [120] ++ [[], []] := by decide +kernel
+
+/-! ### every reading path delivers every byte once, in order — whatever the DBCS pairing -/
+
+/-- all bytes of the waiting keystrokes, in order -/
+def bytesOf (s : KB) : Bytes := (keys s).flatten
+
+theorem getc_bytes (s : KB) (hi : Inv s) :
+    (getc s).1 ++ bytesOf (getc s).2 = bytesOf s ∧ Inv (getc s).2 := by
+  cases hw : waiting s with
+  | nil => rw [(getc_spec s hi).1 hw]; exact ⟨by simp, hi⟩
+  | cons k t =>
+    obtain ⟨e1, e2, e3, _⟩ := (getc_spec s hi).2 k t hw
+    refine ⟨?_, e3⟩
+    simp [bytesOf, keys, hw, e1, e2]
+
+/-- **`get_fullchar` loses nothing**: for ANY lead/trail byte sets, what it delivers followed by the bytes still
+    waiting is exactly the bytes that were waiting (a lead byte whose successor is not a trail byte leaves
+    that successor in the buffer). -/
+theorem fullchar_preserves_bytes (lead trail : Nat → Bool) (s : KB) (hi : Inv s) :
+    (getFullchar lead trail s).1 ++ bytesOf (getFullchar lead trail s).2 = bytesOf s ∧
+    Inv (getFullchar lead trail s).2 := by
+  obtain ⟨a1, a2⟩ := getc_bytes s hi
+  unfold getFullchar
+  simp only
+  split
+  · obtain ⟨b1, b2⟩ := getc_bytes (getc s).2 a2
+    refine ⟨?_, b2⟩
+    rw [List.append_assoc, b1, a1]
+  · exact ⟨a1, a2⟩
+
+/-- `get_fullchar` consumes at least one and at most two waiting keystrokes (none only when none waits) -/
+theorem fullchar_progress (lead trail : Nat → Bool) (s : KB) (hi : Inv s) :
+    let n := (waiting s).length
+    let n' := (waiting (getFullchar lead trail s).2).length
+    n' ≤ n ∧ n ≤ n' + 2 ∧ (0 < n → n' < n) := by
+  have hg : ∀ s : KB, Inv s → (waiting (getc s).2).length ≤ (waiting s).length ∧
+      (waiting s).length ≤ (waiting (getc s).2).length + 1 ∧
+      (0 < (waiting s).length → (waiting (getc s).2).length < (waiting s).length) := by
+    intro s hi
+    cases hw : waiting s with
+    | nil => rw [(getc_spec s hi).1 hw, hw]; simp
+    | cons k t =>
+      obtain ⟨_, e2, _⟩ := (getc_spec s hi).2 k t hw
+      rw [e2]; simp
+  obtain ⟨g1, g2, g3⟩ := hg s hi
+  have hi' := (getc_bytes s hi).2
+  obtain ⟨k1, k2, k3⟩ := hg (getc s).2 hi'
+  unfold getFullchar
+  simp only
+  split
+  · simp only; omega
+  · exact ⟨g1, by omega, g3⟩
+
+/-- **Every reading path, any mixture.**  Reading with any sequence of `read_byte` (INKEY$, INPUT$) and
+    `get_fullchar` (INPUT, LINE INPUT, the editor) calls, under any double-byte codepage: the bytes delivered,
+    concatenated, followed by the bytes still waiting, are exactly the bytes that were waiting. -/
+theorem reads_preserve_bytes (lead trail : Nat → Bool) (rds : List Rd) (s : KB) (hi : Inv s) :
+    (readAll lead trail s rds).1.flatten ++ bytesOf (readAll lead trail s rds).2 = bytesOf s := by
+  induction rds generalizing s with
+  | nil => simp [readAll]
+  | cons r rest ih =>
+    have h : (readStep lead trail s r).1 ++ bytesOf (readStep lead trail s r).2 = bytesOf s ∧
+        Inv (readStep lead trail s r).2 := by
+      cases r with
+      | byte => exact getc_bytes s hi
+      | full => exact fullchar_preserves_bytes lead trail s hi
+    simp only [readAll, List.flatten_cons]
+    rw [List.append_assoc, ih _ h.2, h.1]
+
+/-- **FIFO for typed keys under any codepage**: after any history of presses, injections, reads, PEEKs and
+    clearing POKEs, any mixture of byte-wise and full-character reads delivers — in order, exactly once — the
+    bytes of the keystrokes that the bounded queue of `fifo_refinement` holds. -/
+theorem dbcs_fifo (lead trail : Nat → Bool) (ops : List Op) (hf : ∀ op ∈ ops, FifoOp op) (rds : List Rd) :
+    (readAll lead trail (run init ops).2 rds).1.flatten ++ bytesOf (readAll lead trail (run init ops).2 rds).2
+      = (specRun [] ops).2.flatten := by
+  rw [reads_preserve_bytes lead trail rds _ (inv_run ops)]
+  unfold bytesOf
+  rw [(fifo_refinement ops hf).2]
+
+/-- cp936-like sets: a lone lead byte 0x81 followed by `1` is NOT combined and `1` stays in the buffer;
+    followed by `A` (a trail byte) the two are delivered as one character -/
+example : (readAll (fun x => decide (129 ≤ x ∧ x ≤ 254)) (fun x => decide (64 ≤ x ∧ x ≤ 254))
+      (run init [.press [129] 0, .press [49] 2, .press [129] 0, .press [65] 30, .press [13] 28]).2
+      [.full, .full, .full, .full, .full]).1 = [[129], [49], [129, 65], [13], []] := by decide
 
 /-! ### tie to the source: the ring arithmetic of `KeyboardBuffer`
 
